@@ -48,7 +48,8 @@ package nitro
 
 //@ func (*Nitro).EncodeItem
 //@ props C19 C12
-//@ use errs-nonnil crcm-ext
+//@ use errs-nonnil
+//@ use! crcm-ext for ensures[checksum]
 //@ requires m != nil && itm != nil && w != nil && wlen[w] >= 0
 //@ requires[disjoint] itm.dataLen == 0 || ptr(buf) + 4 <= itm + 12 || ptr(buf) >= itm + 12 + itm.dataLen
 //@ modifies buf[0], buf[1], buf[2], buf[3], wout[w], wlen[w]
@@ -67,7 +68,7 @@ package nitro
 
 //@ func (*Nitro).DecodeItem
 //@ props C19 C11
-//@ use crcm-ext
+//@ use! crcm-ext for ensures[checksum]
 //@ requires m != nil && r != nil && len(buf) >= 4 && rpos[r] >= 0 && rpos[r] <= rlen[r]
 //@ modifies rpos[r], mem(uint8), heap($alive), heap($brk)
 //@ ensures[pos-monotone] rpos[r] >= old(rpos[r]) && rpos[r] <= rlen[r]
@@ -182,4 +183,172 @@ package nitro
 //@ requires[wellformed] len(a) >= 2 && 2 + a[0] + a[1] * 256 <= len(a) && len(b) >= 2 && 2 + b[0] + b[1] * 256 <= len(b)
 //@ modifies none
 //@ ensures[def] result == bcmp(memheap8(), ptr(a) + 2, a[0] + a[1] * 256, ptr(b) + 2, b[0] + b[1] * 256)
+//@ nopanic
+
+// ---------------------------------------------------------------------------
+// L2: the nitro store. Ghost view: phys = m.store.phys (level-0 chain), items are *Item with bornSn/deadSn.
+// kc(a, b) is the configured key comparator applied to the data of items a and b (assumed pure, total preorder;
+// item data is immutable after creation).
+// ---------------------------------------------------------------------------
+
+//@ ufun kc(a ref, b ref) int
+//@ axiom kc-refl: forall a ref :: kc(a, a) == 0
+//@ axiom kc-antisym: forall a, b ref :: (kc(a, b) < 0 <==> kc(b, a) > 0) && (kc(a, b) == 0 <==> kc(b, a) == 0)
+//@ axiom kc-trans: forall a, b, c ref :: (kc(a, b) <= 0 && kc(b, c) <= 0 ==> kc(a, c) <= 0) && (kc(a, b) < 0 && kc(b, c) <= 0 ==> kc(a, c) < 0) && (kc(a, b) <= 0 && kc(b, c) < 0 ==> kc(a, c) < 0)
+
+//@ callback-type nitro.KeyCompare(fn ref, a []byte, b []byte) r int
+//@ pure-call
+//@ ensures r == kc(ptr(a) - 12, ptr(b) - 12)
+
+//@ pure insc(a *Item, b *Item) int = ite(kc(a, b) != 0, kc(a, b), a.bornSn - b.bornSn)
+//@ pure exc(a *Item, b *Item) int = ite(a.deadSn != 0 || b.deadSn != 0, 1, kc(a, b))
+//@ pure vis(a *Item, sn int) bool = a.bornSn <= sn && (a.deadSn == 0 || a.deadSn > sn)
+
+//@ func newInsertCompare$1
+//@ props C02 C09
+//@ requires this != nil && that != nil
+//@ modifies none
+//@ ensures[def] result == insc(cast(*Item, this), cast(*Item, that))
+//@ nopanic
+
+//@ func newIterCompare$1
+//@ props C02 C09
+//@ requires this != nil && that != nil
+//@ modifies none
+//@ ensures[def] result == kc(this, that)
+//@ nopanic
+
+//@ func newExistCompare$1
+//@ props C02
+//@ requires this != nil && that != nil
+//@ modifies none
+//@ ensures[def] result == exc(cast(*Item, this), cast(*Item, that))
+//@ nopanic
+
+// Configuration: the three comparators stored in the instance are the closures built by SetKeyComparator.
+//@ pure isInsCmp(f ref) bool = forall a, b ref :: cmpf(f, a, b) == insc(cast(*Item, a), cast(*Item, b))
+//@ pure isIterCmp(f ref) bool = forall a, b ref :: cmpf(f, a, b) == kc(a, b)
+//@ pure isExistCmp(f ref) bool = forall a, b ref :: cmpf(f, a, b) == exc(cast(*Item, a), cast(*Item, b))
+//@ pure cfgOK(m *Nitro) bool = isInsCmp(m.insCmp) && isIterCmp(m.iterCmp) && isExistCmp(m.existCmp)
+
+//@ pure itmAt(m *Nitro, i int) *Item = cast(*Item, m.store.phys[i].itm)
+//@ pure wfItems(m *Nitro) bool = forall i int :: 0 <= i && i < m.store.n ==> m.store.phys[i].itm != nil && m.store.phys[i].itm != skiplist.MaxItem
+//@ pure wfSorted(m *Nitro) bool = forall i, j int :: 0 <= i && i < j && j < m.store.n ==> insc(itmAt(m, i), itmAt(m, j)) < 0
+//@ pure wfVersions(m *Nitro) bool = forall i int :: 0 <= i && i + 1 < m.store.n && kc(itmAt(m, i), itmAt(m, i + 1)) == 0 ==>
+//@     itmAt(m, i).deadSn != 0 && itmAt(m, i).deadSn <= itmAt(m, i + 1).bornSn
+//@ pure wfStore(m *Nitro) bool = m != nil && m.store != nil && wfChain(m.store) && m.store.n < 1099511627776 && cfgOK(m) && wfItems(m) && wfSorted(m) && wfVersions(m)
+
+// A nitro iterator wraps a skiplist iterator over the store with the key-only comparator.
+//@ ghost field Iterator.probe *Item
+//@ pure wfIter(it *Iterator) bool = it != nil && it.snap != nil && it.snap.db != nil && it.iter != nil && wfStore(it.snap.db) &&
+//@     it.iter.s == it.snap.db.store && it.iter.cmp == it.snap.db.iterCmp && it.iter.buf != nil && len(it.iter.buf.preds) >= 1 && len(it.iter.buf.succs) >= 1
+//@ pure visAt(it *Iterator, i int) bool = vis(itmAt(it.snap.db, i), it.snap.sn)
+
+//@ func (*Iterator).skipUnwanted
+//@ props C09 C01
+//@ requires wfIter(it) && positioned(it.iter) && it.iter.count < 2305843009213693952 && it.iter.smrInterval == 18446744073709551615
+//@ modifies it.count, it.iter.valid, it.iter.prev, it.iter.curr, it.iter.ix, it.iter.count, it.iter.deleted
+//@ loop 1 invariant wfIter(it) && positioned(it.iter) && old(it.iter.ix) <= it.iter.ix && it.iter.smrInterval == 18446744073709551615
+//@ loop 1 invariant it.iter.count == old(it.iter.count) + (it.iter.ix - old(it.iter.ix)) && it.count == old(it.count) + (it.iter.ix - old(it.iter.ix))
+//@ loop 1 invariant forall j int :: old(it.iter.ix) <= j && j < it.iter.ix ==> !visAt(it, j)
+//@ loop 1 decreases it.snap.db.store.n - it.iter.ix
+//@ ensures[positioned] wfIter(it) && positioned(it.iter)
+//@ ensures[visible] it.iter.ix == it.snap.db.store.n || visAt(it, it.iter.ix)
+//@ ensures[skipped] old(it.iter.ix) <= it.iter.ix && (forall j int :: old(it.iter.ix) <= j && j < it.iter.ix ==> !visAt(it, j))
+//@ ensures[count] it.count == old(it.count) + (it.iter.ix - old(it.iter.ix)) && it.iter.count == old(it.iter.count) + (it.iter.ix - old(it.iter.ix))
+//@ nopanic
+
+//@ func (*Nitro).newItem
+//@ trusted allocates an item (allocItem) and copies the bytes; the new item's key is the given byte string
+//@ modifies heap($alive), heap($brk), mem(uint8)
+//@ ensures itm != nil && itm >= old(brk()) && itm < 72057594037927936 && itm.dataLen == len(data) && itm.bornSn == 0 && itm.deadSn == 0
+//@ ensures forall i int :: 0 <= i && i < len(data) ==> mem8(itm + 12 + i) == old(data[i])
+//@ ensures forall a int :: a < old(brk()) ==> mem8(a) == old(mem8(a))
+
+//@ func (*Nitro).ptrToItem
+//@ trusted copies an item (header and bytes) into a Go-managed block; the copy has the same key
+//@ modifies heap($alive), heap($brk), mem(uint8)
+//@ ensures result != nil && result >= old(brk()) && result < 72057594037927936
+//@ ensures result.dataLen == cast(*Item, itmPtr).dataLen && result.bornSn == cast(*Item, itmPtr).bornSn && result.deadSn == cast(*Item, itmPtr).deadSn
+//@ ensures forall y ref :: kc(result, y) == kc(itmPtr, y) && kc(y, result) == kc(y, itmPtr)
+//@ ensures forall a int :: a < old(brk()) ==> mem8(a) == old(mem8(a))
+
+//@ pure firstVisibleFrom(it *Iterator, lo int) bool = lo <= it.iter.ix && it.iter.ix <= it.snap.db.store.n &&
+//@     (it.iter.ix == it.snap.db.store.n || visAt(it, it.iter.ix)) && (forall j int :: lo <= j && j < it.iter.ix ==> !visAt(it, j))
+//@ pure fresh61(it *Iterator) bool = it.iter.count < 2305843009213693952 && it.iter.smrInterval == 18446744073709551615
+
+//@ func (*Iterator).SeekFirst
+//@ props C09 C01
+//@ requires wfIter(it) && !it.iter.deleted && fresh61(it)
+//@ modifies it.count, it.iter.valid, it.iter.prev, it.iter.curr, it.iter.ix, it.iter.count, it.iter.deleted
+//@ ensures[positioned] wfIter(it) && positioned(it.iter)
+//@ ensures[first-visible] firstVisibleFrom(it, 0)
+//@ nopanic
+
+//@ func (*Iterator).Valid
+//@ props C09 C01
+//@ requires wfIter(it) && positioned(it.iter)
+//@ modifies it.iter.valid
+//@ ensures[iff] result <==> it.iter.ix < it.snap.db.store.n
+//@ ensures[positioned] positioned(it.iter)
+//@ nopanic
+
+//@ func (*Iterator).GetNode
+//@ props C09 C01
+//@ requires it != nil && it.iter != nil
+//@ modifies none
+//@ ensures[node] result == it.iter.curr
+//@ nopanic
+
+//@ func (*Iterator).Get
+//@ props C09 C01
+//@ requires wfIter(it) && positioned(it.iter) && it.iter.ix < it.snap.db.store.n
+//@ modifies none
+//@ ensures[bytes] ptr(result) == itmAt(it.snap.db, it.iter.ix) + 12 && len(result) == itmAt(it.snap.db, it.iter.ix).dataLen
+//@ nopanic
+
+//@ func (*Iterator).SetRefreshRate
+//@ props C09
+//@ requires it != nil
+//@ modifies it.refreshRate
+//@ ensures[def] it.refreshRate == rate
+
+//@ func (*Iterator).Seek
+//@ props C09 C01
+//@ use sl-globals
+//@ use! kc-antisym kc-trans for call[(*skiplist.Iterator).Seek]
+//@ use! kc-antisym kc-trans for ensures[smallest]
+//@ requires wfIter(it) && !it.iter.deleted && fresh61(it)
+//@ modifies it.count, it.probe, it.iter.valid, it.iter.prev, it.iter.curr, it.iter.ix, it.iter.count, it.iter.deleted
+//@ modifies it.iter.buf.pos, elems(it.iter.buf.preds), elems(it.iter.buf.succs), it.snap.db.store.Stats.readConflicts, heap($alive), heap($brk), mem(uint8)
+//@ ensures[positioned] wfIter(it) && positioned(it.iter)
+//@ ghost-exit it.probe := itm
+//@ ensures[probe] it.probe != nil && it.probe.dataLen == len(bs) && (forall i int :: 0 <= i && i < len(bs) ==> mem8(it.probe + 12 + i) == old(bs[i]))
+//@ ensures[visible] it.iter.ix == it.snap.db.store.n || (visAt(it, it.iter.ix) && kc(itmAt(it.snap.db, it.iter.ix), it.probe) >= 0)
+//@ ensures[smallest] forall j int :: 0 <= j && j < it.iter.ix ==> kc(itmAt(it.snap.db, j), it.probe) < 0 || !visAt(it, j)
+//@ nopanic
+
+//@ pure bufOK(it *Iterator) bool = it.buf != nil && len(it.buf.preds) >= 1 && len(it.buf.succs) >= 1
+
+//@ func (*Iterator).Refresh
+//@ props C09 C01 C10
+//@ use sl-globals
+//@ use! kc-antisym kc-trans for call[(*skiplist.Iterator).Seek]
+//@ use! kc-antisym kc-trans for ensures[pos]
+//@ requires wfIter(it) && positioned(it.iter) && bufOK(it) && fresh61(it)
+//@ requires[on-visible] it.iter.ix < it.snap.db.store.n ==> visAt(it, it.iter.ix)
+//@ modifies it.iter, it.count, it.iter.valid, it.buf.pos, elems(it.buf.preds), elems(it.buf.succs), it.snap.db.store.Stats.readConflicts, heap($alive), heap($brk), mem(uint8)
+//@ ensures[wf] wfIter(it) && positioned(it.iter) && bufOK(it)
+//@ ensures[pos] it.iter.ix == old(it.iter.ix)
+//@ ensures[steps] it.iter.count < 1099511627776 + 2 || it.iter.count == old(it.iter.count)
+//@ nopanic
+
+//@ func (*Iterator).Next
+//@ props C09 C01 C10
+//@ requires wfIter(it) && positioned(it.iter) && bufOK(it) && it.iter.count < 1152921504606846976 && it.iter.smrInterval == 18446744073709551615
+//@ requires it.iter.ix < it.snap.db.store.n
+//@ modifies it.iter, it.count, it.iter.valid, it.iter.prev, it.iter.curr, it.iter.ix, it.iter.count, it.iter.deleted
+//@ modifies it.buf.pos, elems(it.buf.preds), elems(it.buf.succs), it.snap.db.store.Stats.readConflicts, heap($alive), heap($brk), mem(uint8)
+//@ ensures[wf] wfIter(it) && positioned(it.iter) && bufOK(it)
+//@ ensures[next-visible] firstVisibleFrom(it, old(it.iter.ix) + 1)
 //@ nopanic
